@@ -483,7 +483,7 @@ class TensorDictBase(MutableMapping):
         if items:
             # the result inherits the lock of self: the entries that only `other` has are added before re-locking
             with result.unlock_() if result.is_locked else contextlib.nullcontext():
-                result.update(items)
+                result._update_items_list(items)
         return result
 
     __rand__ = __and__
@@ -7565,6 +7565,10 @@ class TensorDictBase(MutableMapping):
         vals = [source.get(key, default) for key in new_keys]
         return new_keys, vals
 
+    def _update_items_list(self, items: dict) -> None:
+        """Writes entries whose keys come from :meth:`_items_list` (``include_nested=True, leaves_only=True``)."""
+        self.update(items)
+
     def _grad(self):
         # We can't cache this because zero_grad can be called outside (eg from optimizer) and we want the tensors
         # to clear out when that is done.
@@ -10300,7 +10304,7 @@ class TensorDictBase(MutableMapping):
         if items:
             # the result inherits the lock of self: the entries that only `other` has are added before re-locking
             with result.unlock_() if result.is_locked else contextlib.nullcontext():
-                result.update(items)
+                result._update_items_list(items)
         return result
 
     @_maybe_broadcast_other("bitwise_and")
@@ -10355,7 +10359,7 @@ class TensorDictBase(MutableMapping):
         if items:
             # the result inherits the lock of self: the entries that only `other` has are added before re-locking
             with result.unlock_() if result.is_locked else contextlib.nullcontext():
-                result.update(items)
+                result._update_items_list(items)
         return result
 
     @_maybe_broadcast_other("logical_and")
@@ -10410,7 +10414,7 @@ class TensorDictBase(MutableMapping):
         if items:
             # the result inherits the lock of self: the entries that only `other` has are added before re-locking
             with result.unlock_() if result.is_locked else contextlib.nullcontext():
-                result.update(items)
+                result._update_items_list(items)
         return result
 
     @_maybe_broadcast_other("add")
@@ -10471,7 +10475,7 @@ class TensorDictBase(MutableMapping):
         if items:
             # the result inherits the lock of self: the entries that only `other` has are added before re-locking
             with result.unlock_() if result.is_locked else contextlib.nullcontext():
-                result.update(items)
+                result._update_items_list(items)
         return result
 
     def add_(
@@ -10748,7 +10752,7 @@ class TensorDictBase(MutableMapping):
         if items:
             # the result inherits the lock of self: the entries that only `other` has are added before re-locking
             with result.unlock_() if result.is_locked else contextlib.nullcontext():
-                result.update(items)
+                result._update_items_list(items)
         return result
 
     def sub_(
@@ -10843,7 +10847,7 @@ class TensorDictBase(MutableMapping):
         if items:
             # the result inherits the lock of self: the entries that only `other` has are added before re-locking
             with result.unlock_() if result.is_locked else contextlib.nullcontext():
-                result.update(items)
+                result._update_items_list(items)
         return result
 
     def maximum_(self, other: TensorDictBase | torch.Tensor) -> T:
@@ -10912,7 +10916,7 @@ class TensorDictBase(MutableMapping):
         if items:
             # the result inherits the lock of self: the entries that only `other` has are added before re-locking
             with result.unlock_() if result.is_locked else contextlib.nullcontext():
-                result.update(items)
+                result._update_items_list(items)
         return result
 
     def minimum_(self, other: TensorDictBase | torch.Tensor) -> T:
@@ -10981,7 +10985,7 @@ class TensorDictBase(MutableMapping):
         if items:
             # the result inherits the lock of self: the entries that only `other` has are added before re-locking
             with result.unlock_() if result.is_locked else contextlib.nullcontext():
-                result.update(items)
+                result._update_items_list(items)
         return result
 
     def clamp_max_(self, other: TensorDictBase | torch.Tensor) -> T:
@@ -11064,7 +11068,7 @@ class TensorDictBase(MutableMapping):
         if items:
             # the result inherits the lock of self: the entries that only `other` has are added before re-locking
             with result.unlock_() if result.is_locked else contextlib.nullcontext():
-                result.update(items)
+                result._update_items_list(items)
         return result
 
     def clamp_min_(self, other: TensorDictBase | torch.Tensor) -> T:
@@ -11148,7 +11152,7 @@ class TensorDictBase(MutableMapping):
         if items:
             # the result inherits the lock of self: the entries that only `other` has are added before re-locking
             with result.unlock_() if result.is_locked else contextlib.nullcontext():
-                result.update(items)
+                result._update_items_list(items)
         return result
 
     @_maybe_broadcast_other("clamp", 2)
@@ -11287,7 +11291,7 @@ class TensorDictBase(MutableMapping):
         if items:
             # the result inherits the lock of self: the entries that only `other` has are added before re-locking
             with result.unlock_() if result.is_locked else contextlib.nullcontext():
-                result.update(items)
+                result._update_items_list(items)
         return result
 
     def div_(self, other: TensorDictBase | torch.Tensor) -> T:
@@ -11362,7 +11366,7 @@ class TensorDictBase(MutableMapping):
         if items:
             # the result inherits the lock of self: the entries that only `other` has are added before re-locking
             with result.unlock_() if result.is_locked else contextlib.nullcontext():
-                result.update(items)
+                result._update_items_list(items)
         return result
 
     def sqrt_(self):
